@@ -10,32 +10,45 @@ import gen_asn1 as G
 import lib
 
 ALL_BINARY = ['uper', 'per', 'oer', 'der', 'ber']
-# codecs whose finding regions have been triaged (recorded witnesses + generator exclusions); the
-# cross-codec checks run on these, the others are listed in the evidence as not yet covered
-BINARY = ['uper', 'per']
+# codecs covered by the cross-codec property tests (their finding regions are triaged: recorded
+# witnesses in known_findings/ + scope predicates of their bindings)
+BINARY = ['uper', 'per', 'oer', 'der', 'ber']
 TEXT = ['jer', 'xer']
 
 
+def binding(codec):
+    try:
+        return importlib.import_module('codec_%s' % codec)
+    except ImportError:
+        return None
+
+
 def models():
-    """codec name -> binding module, for every codec model that exists and builds."""
+    """codec name -> binding module usable by the GENERIC correspondence drivers of
+    codec_common (uper, per).  The OER, DER and BER models have their own exporters (tags, OER
+    normal form) and are compared with the library by their own checks (C06, C03, C04); the
+    cross-codec checks run the property tests on /repo for them and re-export their theorems."""
     out = {}
     for c in BINARY:
-        try:
-            out[c] = importlib.import_module('codec_%s' % c)
-        except ImportError:
-            pass
+        m = binding(c)
+        if m is not None and getattr(m, 'GENERIC', False):
+            out[c] = m
     return out
 
 
-# Finding regions per codec that the shared generator must stay out of; each name is tied to a
-# recorded witness in known_findings/ (C05 for per/uper, C06 for oer, C03/C04 for der/ber).
-def avoid_for(codec, mods):
-    if codec in mods and hasattr(mods[codec], 'AVOID'):
-        return set(mods[codec].AVOID)
+def avoid_for(codec, mods=None):
+    import codec_uper
+    m = binding(codec)
+    if m is not None and hasattr(m, 'AVOID'):
+        return set(m.AVOID)
     if codec in ('per', 'uper'):
-        import codec_uper
         return set(codec_uper.AVOID)
-    return set()
+    # shared generator regions that are findings of the compile layer / of several codecs
+    if codec == 'der':
+        # DER removes trailing zero bits of named-bit strings; the decoder does not pad the value back up to a
+        # SIZE lower bound, so the decoded value fails the constraints check (known_findings/C01.json)
+        return {'named_bits_with_size'}
+    return {'int_ext_open', 'alpha1', 'group_zero_width'} if codec == 'oer' else set()
 
 
 def union_opts(codecs, mods, **kw):
@@ -48,11 +61,11 @@ def union_opts(codecs, mods, **kw):
 
 
 def scope_ok(codec, mods, c):
-    m = mods.get(codec)
+    m = binding(codec)
     if m is None or not hasattr(m, 'in_scope'):
         return True
     try:
-        return m.in_scope(c.mod, c.t, c.value)
+        return bool(m.in_scope(c.mod, c.t, c.value))
     except Exception:
         return True
 
